@@ -845,12 +845,53 @@ Fixpoint ret_ro (e : expr) (ro : bool) : bool :=
   | _ => ro
   end.
 
-(* handlers that return the context's own MatchingNodes list object *)
-Fixpoint returns_ctx (e : expr) : bool :=
+(* Which list OBJECT a handler hands back matters to unionOperator alone: it skips the RHS results when both
+   operands return the very same list.  Handlers either build a new list, or return their context's own
+   MatchingNodes (`.`, assignments, delete unless it removes a context node), or the list a variable holds
+   (`$x`, also through `$x | .`); `e as $x | body` returns body's list only when its context AND e's results are
+   empty (variableLoop evaluates "all together" on an empty context and then falls through to body).
+   (definitely, identity): (true, None) = a new list; (false, Some b) = b or a new list, decided at run time. *)
+Inductive lbase := BCtx | BVar (x : str).
+Definition lid := (bool * option lbase)%type.
+Definition fresh_id : lid := (true, None).
+
+Definition lbase_eqb (a b : lbase) : bool :=
+  match a, b with
+  | BCtx, BCtx => true
+  | BVar x, BVar y => str_eqb x y
+  | _, _ => false
+  end.
+
+Definition is_bound (vs : vars) (x : str) : bool := existsb (fun p => str_eqb x (fst p)) vs.
+
+(* [ce]: the context may be empty.  [direct]: the handler runs against the union's own Context object; every
+   ChildContext copies the variable lists into new list objects, so `$x` names the same list only then *)
+Fixpoint list_id (bound : str -> bool) (direct ce : bool) (e : expr) : lid :=
   match e with
-  | ESelf | EAssign _ _ | EUpdate _ _ | ECompound _ _ _ => true
-  | EPipe l r => returns_ctx l && returns_ctx r
-  | _ => false
+  | ESelf | EAssign _ _ | EUpdate _ _ | ECompound _ _ _ => (true, Some BCtx)
+  | EDel _ => (false, Some BCtx)
+  | EVar x => if direct && bound x then (true, Some (BVar x)) else fresh_id
+  | EPipe l r =>
+      (* the RHS runs in a ChildContext whose matching nodes are the LHS's list *)
+      match list_id bound false true r with
+      | (d, Some BCtx) =>
+          match list_id bound direct ce l with
+          | (dl, Some b) => (d && dl, Some b)
+          | (_, None) => fresh_id
+          end
+      | other => other
+      end
+  | EAs _ _ body =>
+      if ce then match list_id bound direct true body with (_, Some b) => (false, Some b) | (_, None) => fresh_id end
+      else fresh_id
+  | _ => fresh_id
+  end.
+
+(* Some true: the RHS results are skipped; Some false: appended; None: not decided by the model *)
+Definition union_mode (a b : lid) : option bool :=
+  match snd a, snd b with
+  | Some x, Some y => if lbase_eqb x y then (if fst a && fst b then Some true else None) else Some false
+  | _, _ => Some false
   end.
 
 Fixpoint eval (fuel : nat) (e : expr) (ro : bool) (vs : vars) (ctx : list ptr) (st : store) {struct fuel} : res out :=
@@ -918,10 +959,13 @@ Fixpoint eval (fuel : nat) (e : expr) (ro : bool) (vs : vars) (ctx : list ptr) (
     | EUnion l r =>
         let* ol := ev l ro vs ctx st in
         let* or_ := ev r ro vs ctx (snd ol) in
-        (* unionOperator skips the RHS results when both operands hand back the
-           very same list object, i.e. when both return their context unchanged *)
-        if returns_ctx l && returns_ctx r then Ok (fst ol, snd or_)
-        else Ok (fst ol ++ fst or_, snd or_)
+        (* unionOperator skips the RHS results when both operands hand back the very same list object *)
+        match union_mode (list_id (is_bound vs) true (match ctx with [] => true | _ => false end) l)
+                         (list_id (is_bound vs) true (match ctx with [] => true | _ => false end) r) with
+        | Some true => Ok (fst ol, snd or_)
+        | Some false => Ok (fst ol ++ fst or_, snd or_)
+        | None => Unsup
+        end
     | ECollect eo =>
         match ctx with
         | [] => one (alloc_fresh st (Seq []))
